@@ -92,17 +92,24 @@ def rHCScene : RM (Nat × Float × List (Pose Float × Vel Float) × List (HCCon
                 X1 := k1.1, X2 := k2.1, V1 := k1.2, V2 := k2.2 } : HCContact Float))
     return (nb, vt, kin, cs)
 
-/-- the springs of an `ef` record evaluated by the model -/
-def rEFScene : RM (Vel Float × Vel Float × Float × Float × List (EFOut Float)) := do
+/-- the springs of an `ef` record evaluated by the model: per spring the outputs and whether its mesh is on body 1
+(role 0) or on the other body (role 1, mesh–mesh contact); `F1` of a spring acts on the body carrying its mesh -/
+def rEFScene : RM (Vel Float × Vel Float × List (Nat × EFOut Float)) := do
     let nscene ← rN; let _ ← rList nscene tok
-    let vt ← rF; let k ← rF; let c ← rF; let us ← rF; let ud ← rF; let uv ← rF
+    let vt ← rF
     let _bOther ← rN
     let X1 ← rPose; let V1 ← rVel; let X2 ← rPose; let V2 ← rVel
-    let ns ← rN
-    let outs ← rList ns (do
-      let area ← rF; let np ← rV3; let sp ← rV3
-      return (area, efSpring fsqrt vt ⟨k, c, us, ud, uv⟩ area np sp X1 X2 V1 V2))
-    return (V1, V2, k, 0, outs.map (·.2))
+    let ng ← rN
+    let groups ← rList ng (do
+      let role ← rN
+      let k ← rF; let c ← rF; let us ← rF; let ud ← rF; let uv ← rF
+      let ns ← rN
+      rList ns (do
+        let area ← rF; let np ← rV3; let sp ← rV3
+        let o := if role == 0 then efSpring fsqrt vt ⟨k, c, us, ud, uv⟩ area np sp X1 X2 V1 V2
+                 else efSpring fsqrt vt ⟨k, c, us, ud, uv⟩ area np sp X2 X1 V2 V1
+        return (role, o)))
+    return (V1, V2, groups.flatten)
 
 def handle (fn : String) : RM (Option (List Float)) := do
   match fn with
@@ -135,6 +142,11 @@ def handle (fn : String) : RM (Option (List Float)) := do
   | "mobStop" =>
     let k ← rF; let d ← rF; let lo ← rF; let hi ← rF; let q ← rF; let qd ← rF
     return some [mobStopForce k d lo hi q qd, mobStopPE k lo hi q]
+  | "discrete" =>
+    -- DiscreteForces: exactly what was set (body force replaced, point force added, mobility force replaced); no energy
+    let m ← rV3; let f ← rV3; let st ← rV3; let fp ← rV3; let fm ← rF; let X ← rPose
+    let F := SpF.add ⟨m, f⟩ (applyForceToBodyPoint X st fp)
+    return some (spfl F ++ [mobConstForce fm, 0])
   | "dissStop" =>
     -- dissipation term of the stop = power + d(PE)/dt, the latter as the jet derivative of the coded energy
     let k ← rF; let d ← rF; let lo ← rF; let hi ← rF; let q ← rF; let qd ← rF
@@ -185,17 +197,19 @@ def handle (fn : String) : RM (Option (List Float)) := do
     let o := expNormal Float.exp d0 d1 d2 cz maxF pz vz
     return some [o.fzElas, o.fzDamp, o.fz]
   | "ef" =>
-    let (_, _, _, _, outs) ← rEFScene
-    let F1 := outs.foldl (fun a o => SpF.add a o.F1) SpF.zero
-    let F2 := outs.foldl (fun a o => SpF.add a o.F2) SpF.zero
-    let pe := outs.foldl (fun a o => a + o.pe) 0
-    return some (spfl F1 ++ spfl F2 ++ [pe])
+    let (_, _, outs) ← rEFScene
+    let onB1 := outs.foldl (fun a e => SpF.add a (if e.1 == 0 then e.2.F1 else e.2.F2)) SpF.zero
+    let onB2 := outs.foldl (fun a e => SpF.add a (if e.1 == 0 then e.2.F2 else e.2.F1)) SpF.zero
+    let pe := outs.foldl (fun a e => a + e.2.pe) 0
+    return some (spfl onB1 ++ spfl onB2 ++ [pe])
   | "dissEF" =>
     -- Σ over springs: power + k a x·vnormal, with k a x = 2 pe / x (x ≠ 0), written through the model's outputs
-    let (V1, V2, _, _, outs) ← rEFScene
-    let d := outs.foldl (fun a o =>
+    let (V1, V2, outs) ← rEFScene
+    let d := outs.foldl (fun a e =>
+      let o := e.2
       let kax := if o.x == 0 then 0 else 2 * o.pe / o.x
-      a + o.F1.power V1 + o.F2.power V2 + kax * o.vnormal) 0
+      let p := if e.1 == 0 then o.F1.power V1 + o.F2.power V2 else o.F1.power V2 + o.F2.power V1
+      a + p + kax * o.vnormal) 0
     return some [d]
   | "expnPE" =>
     let d0 ← rF; let d1 ← rF; let d2 ← rF; let cz ← rF; let maxF ← rF; let _mus ← rF; let _muk ← rF
